@@ -1004,6 +1004,11 @@ namespace link_layer {
                 this->connection_requested( details(), connection_data_, static_cast< radio_t& >( *this ) );
                 this->template handle_connection_events< link_layer< Server, ScheduledRadio, Options... > >();
             }
+            else
+            {
+                // connect request with invalid parameters: ignore the request and keep on advertising
+                this->handle_adv_timeout();
+            }
         }
     }
 
